@@ -889,5 +889,60 @@ pub fn gen_case(prop: &str, tier: Tier, verif_seed: u64, index: u64, engine_miri
     if case.threads.len() <= 1 {
         case.policy = Policy::Seq;
     }
+    // swarm knob `host.level`: outside C13 (which walks the levels systematically) one run in four executes on a lesser
+    // simulated host, so that the code the automatic planner falls back to (SSE planner, scalar planner, portable Rader
+    // inside AVX plans without AVX2) also meets every other property's faults. Dedicated SIMD planners the lowered host
+    // would decline are replaced by the automatic planner. Drawn last, so that the rest of the case does not depend on it.
+    if prop != "C13" && rng.chance(0.25) {
+        let host = crate::oracle::HOSTS[rng.below(4) as usize].1;
+        lower_host(&mut case, host);
+    }
     case
+}
+
+fn pk_ok(pk: PK, host: u32) -> bool {
+    match pk {
+        PK::Avx => host & 6 == 6,
+        PK::Sse => host & 1 == 1,
+        _ => true,
+    }
+}
+
+fn respec(s: &mut Spec, host: u32) {
+    match s {
+        Spec::Planned(pk, _) => {
+            if !pk_ok(*pk, host) {
+                *pk = PK::Auto;
+            }
+        }
+        Spec::Radix4Base(_, b) | Spec::Radix3Base(_, b) | Spec::Raders(b) | Spec::Bluestein(_, b) => respec(b, host),
+        Spec::MixedRadix(a, b) | Spec::MixedRadixSmall(a, b) | Spec::GoodThomas(a, b) | Spec::GoodThomasSmall(a, b) => {
+            respec(a, host);
+            respec(b, host);
+        }
+        Spec::Ill(i) => {
+            use crate::world::IllCtor::*;
+            match i {
+                Dirs(_, a, b) | NotCoprime(_, a, b) | SmallScratch(_, a, b) => {
+                    respec(a, host);
+                    respec(b, host);
+                }
+                RadersNotPrime(b) | BluesteinShort(_, b) => respec(b, host),
+                _ => {}
+            }
+        }
+        _ => {}
+    }
+}
+
+pub fn lower_host(case: &mut Case, host: u32) {
+    case.host = host;
+    for pk in case.planners.iter_mut() {
+        if !pk_ok(*pk, host) {
+            *pk = PK::Auto;
+        }
+    }
+    for d in case.insts.iter_mut() {
+        respec(&mut d.spec, host);
+    }
 }
